@@ -434,7 +434,8 @@ def check_document(ctx, rng, parse_fn, text, flags, cls):
             n = 1
             members.append(recorders[i])
         i += n
-    ChainedVisitor(*members).visit(tree_c)
+    chain = ChainedVisitor(*members)
+    chain.visit(tree_c)
     ctx.evaluated()
     ctx.count("chained_visits")
     ctx.mark_nontrivial([text, "chain", k])
@@ -462,6 +463,29 @@ def check_document(ctx, rng, parse_fn, text, flags, cls):
                           "%d vs %d events" % (len(first), len(plain)))
         else:
             ctx.count("chained_visits_ok")
+
+    # C'. the same chain object with its (documented) visitors attribute reassigned, used once more
+    if ok and rng.random() < 0.4:
+        order2 = list(range(k))
+        rng.shuffle(order2)
+        if rng.random() < 0.5 and k > 2:
+            order2 = order2[:-1]
+        chain.visitors = [recorders[i] for i in order2]
+        del logc[:]
+        chain.visit(parse_fn(text, **flags))
+        ctx.evaluated()
+        ctx.count("chained_visits_after_reassigning_visitors")
+        k2, pos = len(order2), 0
+        while pos < len(logc):
+            ev, tag, node = logc[pos]
+            group = logc[pos:pos + k2]
+            tags = [g[1] for g in group]
+            want = order2 if ev == "enter" else list(reversed(order2))
+            if len(group) != k2 or tags != want or not all(g[2] is node and g[0] == ev for g in group):
+                ctx.violation("chained:%s-order-after-reassigning-visitors" % ev, dict(witness, chain=order2),
+                              "tags %r expected %r for %s" % (tags, want, type(node).__name__))
+                break
+            pos += k2
 
     # D. dispatching visitor: right method per kind, same coverage as the plain visitor
     tree_d = parse_fn(text, **flags)
